@@ -482,6 +482,9 @@ func (e *Engine) loopWrites(fr *Frame, st *State, blocks map[*ssa.BasicBlock]boo
 				for _, sr := range eff.stars {
 					stars = append(stars, sr)
 				}
+				for _, fo := range eff.freshOnly {
+					compSet[fo] = true // not general: pre-existing objects keep their contents
+				}
 				for _, c := range eff.comps {
 					compSet[c] = true
 					general[c] = true
@@ -591,7 +594,7 @@ func (e *Engine) cutLoopEntry(fr *Frame, h *ssa.BasicBlock, ord int, lc *LoopCon
 		// components written only through per-iteration fresh objects: pre-existing objects keep their contents
 		for name, old := range before.heap {
 			for fo := range freshOnly {
-				if strings.HasPrefix(name, fo) && strings.HasPrefix(name, "H.") {
+				if strings.HasPrefix(name, fo) && strings.HasPrefix(string(old.Sort), "(Array") {
 					nw := st.comp(name, old.Sort)
 					if nw.S != old.S {
 						e.assumes = append(e.assumes, T(SBool, "(forall ((fr Int)) (! (=> (<= fr alloc0) (= (select %s fr) (select %s fr))) :pattern ((select %s fr))))", nw, old, nw))
@@ -603,7 +606,7 @@ func (e *Engine) cutLoopEntry(fr *Frame, h *ssa.BasicBlock, ord int, lc *LoopCon
 		st.base = func(name string, sort Sort) Term {
 			nw := oldBase(name, sort)
 			for fo := range freshOnly {
-				if strings.HasPrefix(name, fo) && strings.HasPrefix(name, "H.") {
+				if strings.HasPrefix(name, fo) && strings.HasPrefix(string(sort), "(Array") {
 					old := before.comp(name, sort)
 					if nw.S != old.S {
 						e.assumes = append(e.assumes, T(SBool, "(forall ((fr Int)) (! (=> (<= fr alloc0) (= (select %s fr) (select %s fr))) :pattern ((select %s fr))))", nw, old, nw))
@@ -611,6 +614,13 @@ func (e *Engine) cutLoopEntry(fr *Frame, h *ssa.BasicBlock, ord int, lc *LoopCon
 				}
 			}
 			return nw
+		}
+	}
+	// components the contract declares "fresh:" stay unchanged on objects that existed at function entry:
+	// assumed at the loop head, re-checked on every back edge (an inductive invariant).
+	if fr.top && e.FC != nil {
+		for _, t := range e.freshFrameFacts(st) {
+			e.assume(reach, t)
 		}
 	}
 	for phi := range phis {
@@ -749,6 +759,11 @@ func (e *Engine) cutLoopBack(fr *Frame, h *ssa.BasicBlock, ord int, lc *LoopCont
 	}
 	e.curLoopState = st
 	e.setIdx(fr, h)
+	if fr.top && e.FC != nil {
+		for i, t := range e.freshFrameFacts(st) {
+			e.oblige("inv.keep", fmt.Sprintf("inv.keep.fresh%d@%s", i+1, name), "objects existing at entry are unchanged in a component declared fresh:", reach, t, nil)
+		}
+	}
 	if lc != nil {
 		e.checkBodyEnsures(fr, lc, st, pre, reach, name, "back")
 		for i, inv := range lc.Invariants {
@@ -780,6 +795,33 @@ func (e *Engine) cutLoopBack(fr *Frame, h *ssa.BasicBlock, ord int, lc *LoopCont
 	for phi, old := range saved {
 		fr.vals[phi] = old
 	}
+}
+
+// freshFrameFacts: for every component matching a "fresh:" entry of the contract that the state has touched,
+// "objects <= alloc0 have their entry contents".
+func (e *Engine) freshFrameFacts(st *State) []Term {
+	var out []Term
+	fcs := freshComps(e.FC)
+	if len(fcs) == 0 {
+		return nil
+	}
+	var names []string
+	for n := range st.heap {
+		names = append(names, n)
+	}
+	sort.Strings(names)
+	for _, name := range names {
+		cur := st.heap[name]
+		for _, fo := range fcs {
+			if strings.HasPrefix(name, fo) && strings.HasPrefix(string(cur.Sort), "(Array") {
+				ini := e.old.comp(name, cur.Sort)
+				if ini.S != cur.S {
+					out = append(out, T(SBool, "(forall ((fr Int)) (! (=> (<= fr alloc0) (= (select %s fr) (select %s fr))) :pattern ((select %s fr))))", cur, ini, cur))
+				}
+			}
+		}
+	}
+	return out
 }
 
 func (e *Engine) checkBodyEnsures(fr *Frame, lc *LoopContract, st, pre *State, reach Term, name, where string) {
@@ -888,7 +930,7 @@ func (e *Engine) execInstr(fr *Frame, st *State, reach Term, in ssa.Instruction)
 				for _, lf := range Layout(et) {
 				name := "E." + typeID(et) + "." + lf.Path
 				arr := st.comp(name, ArraySort(SInt, ArraySort(SInt, lf.Sort)))
-				st.setComp(name, e.define("h", Store(arr, r, T(ArraySort(SInt, lf.Sort), "((as const (Array Int %s)) %s)", lf.Sort, zeroTerm(lf)))))
+				st.setComp(name, e.define("h", Store(arr, r, constArr(lf))))
 			}
 			fr.vals[x] = Val{T: x.Type(), L: []Term{r}}
 			break
@@ -986,7 +1028,7 @@ func (e *Engine) execInstr(fr *Frame, st *State, reach Term, in ssa.Instruction)
 		for _, lf := range Layout(et) {
 			name := "E." + typeID(et) + "." + lf.Path
 			arr := st.comp(name, ArraySort(SInt, ArraySort(SInt, lf.Sort)))
-			st.setComp(name, e.define("h", Store(arr, r, T(ArraySort(SInt, lf.Sort), "((as const (Array Int %s)) %s)", lf.Sort, zeroTerm(lf)))))
+			st.setComp(name, e.define("h", Store(arr, r, constArr(lf))))
 		}
 		fr.vals[x] = Val{T: x.Type(), L: []Term{r, IntLit(0), ln, cp}}
 	case *ssa.MakeChan:
@@ -1083,6 +1125,14 @@ func (e *Engine) execInstr(fr *Frame, st *State, reach Term, in ssa.Instruction)
 }
 
 var siteTermRe = regexp.MustCompile(`^\(\+ alloc0 \d+\)$`)
+
+// constArr: the all-zero array for element leaf lf (cvc5 accepts "as const" only with value arguments).
+func constArr(lf Leaf) Term {
+	if lf.Sort == SStr {
+		return Term{"zarr.Str", ArraySort(SInt, SStr)}
+	}
+	return T(ArraySort(SInt, lf.Sort), "((as const (Array Int %s)) %s)", lf.Sort, zeroTerm(lf))
+}
 
 func arrayElemOfPtr(t types.Type) types.Type {
 	if pt, ok := t.Underlying().(*types.Pointer); ok {
@@ -1359,8 +1409,10 @@ func (e *Engine) valsEqual(st *State, reach Term, a, b Val) Term {
 	}
 	switch t.Underlying().(type) {
 	case *types.Slice:
-		// only comparison with nil is legal
-		return Eq(la[0], lb[0])
+		// Go only allows comparison with nil; contracts compare slice headers structurally
+		if isNilType(a.T) || isNilType(b.T) {
+			return Eq(la[0], lb[0])
+		}
 	}
 	var cs []Term
 	for i := range la {
@@ -1406,10 +1458,18 @@ func (e *Engine) typeAssert(fr *Frame, st *State, reach Term, x *ssa.TypeAssert)
 		okc := e.fresh("implements", SBool)
 		e.assume(reach, Implies(okc, Not(Eq(tag, IntLit(0)))))
 		ok = okc
+		if si, isI := x.X.Type().Underlying().(*types.Interface); isI {
+			if ti, isT := at.Underlying().(*types.Interface); isT && types.Implements(x.X.Type(), ti) && si != nil {
+				ok = Not(Eq(tag, IntLit(0)))
+			}
+		}
 		payload = Val{T: at, L: []Term{tag, ref}}
 	} else {
 		tg := e.P.typeTag(at)
 		ok = Eq(tag, IntLit(int64(tg)))
+		if pt, isPtr := at.Underlying().(*types.Pointer); isPtr {
+			e.assume(reach, Implies(ok, Or(Eq(ref, IntLit(0)), Eq(T(SInt, "(rtype %s)", ref), IntLit(int64(e.P.typeTag(pt.Elem())))))))
+		}
 		if _, isPtr := at.Underlying().(*types.Pointer); isPtr || (len(Layout(at)) == 1 && Layout(at)[0].Sort == SInt) {
 			payload = Val{T: at, L: []Term{ref}}
 		} else {
@@ -1458,6 +1518,7 @@ func (e *Engine) convert(fr *Frame, st *State, reach Term, x *ssa.Convert) Val {
 			cont := e.fresh("strbytes", ArraySort(SInt, SInt))
 			st.setComp(name, e.define("h", Store(arr, r, cont)))
 			e.assumes = append(e.assumes, T(SBool, "(forall ((i Int)) (! (=> (and (<= 0 i) (< i %s)) (= (select %s i) (strat %s i))) :pattern ((select %s i))))", ln, cont, v.scalar(), cont))
+			e.assumes = append(e.assumes, T(SBool, "(= (bytes2str %s 0 %s) %s)", cont, ln, v.scalar()))
 			return Val{T: x.Type(), L: []Term{r, IntLit(0), ln, ln}}
 		}
 	}
